@@ -34,4 +34,14 @@ theorem sort_canonical {α : Type} (le : α → α → Bool)
   · exact List.pairwise_mergeSort trans total l₂
   · exact (List.mergeSort_perm l₁ le).trans (h.trans (List.mergeSort_perm l₂ le).symm)
 
+
+theorem filterMap_congr_mem {α β} (l : List α) (f g : α → Option β) (h : ∀ x ∈ l, f x = g x) :
+    l.filterMap f = l.filterMap g := by
+  induction l with
+  | nil => rfl
+  | cons a t ih =>
+    simp only [List.filterMap_cons]
+    rw [h a (by simp), ih (fun x hx => h x (by simp [hx]))]
+
+
 end BufModel.Parallel
